@@ -161,29 +161,28 @@ def check(ctx, run):
            a == {"allocNumberToFail_": "0", "actualAllocNumber_": "0", "file_": "NULL", "line_": "0", "next_": ini.params[0]["name"]}, witness=a)
 
     # ---------------- R4 ----------------------------------------------------
-    cd = prog.fn("countdown")
-    run.analysed(cd)
-    enumv = {e["name"]: e["v"] for en in prog.enums.values() for e in en["enumerators"] if e["name"] in ("NO_COUNTDOWN", "OUT_OF_MEMORRY")}
-    for c0 in (-5, -1, 0, 1, 2, 7):
-        ev = Evaluator(prog, cd, env={"malloc_out_of_memory_counter": c0})
-        fired = []
-        ev.calls["cpputest_malloc_set_out_of_memory"] = lambda fired=fired: (fired.append(1), 0)[1]
-        try:
-            ev.run_blocks(cd.entry, max_steps=200)
-            after = ev.env.get("malloc_out_of_memory_counter")
-        except Unknown as u:
-            after = "unknown: %s" % u
-        if c0 <= -1 or c0 == 0:
-            want = (c0, 0)
-        else:
-            want = (c0 - 1, 1 if c0 - 1 == 0 else 0)
-        run.ob("R4", "countdown from %d" % c0, cd.site, (after, len(fired)) == want, witness={"after": after, "switched_to_null_allocator": len(fired), "oracle": list(want)})
     ml = prog.fn("cpputest_malloc_location")
     run.analysed(ml)
-    seq = [(prog.callee_name(ml, c) or "") for c in ml.calls()]
-    ok = seq[:1] == ["countdown"] and "cpputest_malloc_location_with_leak_detection" in seq and seq.index("countdown") < seq.index("cpputest_malloc_location_with_leak_detection")
-    rets = [render(ml, ml.node(n.get("value"))) for n in ml.walk() if n["k"] == "ReturnStmt"]
-    run.ob("R4", "cpputest_malloc_location counts down, then allocates with its own arguments", ml.site, ok and rets == ["cpputest_malloc_location_with_leak_detection(%s)" % ", ".join(q["name"] for q in ml.params)], witness={"calls": seq, "returns": rets})
+    pn_ = [q["name"] for q in ml.params]
+    for c0 in (-5, -1, 0, 1, 2, 7):
+        log = []
+        ev = Evaluator(prog, ml, env={"malloc_out_of_memory_counter": c0, "malloc_count": 10, pn_[0]: 24, pn_[1]: 111000, pn_[2]: 77}, calls={
+            "cpputest_malloc_set_out_of_memory": lambda *a_: (log.append("out-of-memory"), 0)[1],
+            "cpputest_malloc_location_with_leak_detection": lambda *a_: (log.append(("allocate", a_)), 4242)[1]})
+        try:
+            ev.run_blocks(ml.entry, max_steps=300)
+            after, r = ev.env.get("malloc_out_of_memory_counter"), getattr(ev, "ret", None)
+        except Unknown as u:
+            run.broke("C15.R4: cpputest_malloc_location cannot be folded: %s" % u)
+            continue
+        if c0 <= 0:
+            want_after, fires = c0, 0
+        else:
+            want_after, fires = c0 - 1, 1 if c0 - 1 == 0 else 0
+        want_log = (["out-of-memory"] if fires else []) + [("allocate", (24, 111000, 77))]
+        ok = after == want_after and log == want_log and r == 4242
+        run.ob("R4", "malloc with the countdown at %d: counter becomes %d, the null allocator is %sinstalled before the allocation is made with the caller's arguments" % (c0, want_after, "" if fires else "not "), ml.site, ok,
+               witness={"counter_after": after, "log": [str(x) for x in log], "returns": r})
     from cpv.graph import callers_of
     cl = sorted({f.qn for f, c in callers_of(prog, "cpputest_malloc_location_with_leak_detection") if f.file.startswith("src/")})
     run.ob("R4", "only cpputest_malloc_location reaches the uncounted allocation entry (calloc/strdup/malloc all tick the countdown)", UNIT_C + ":cpputest_malloc_location_with_leak_detection",
